@@ -4,7 +4,7 @@ import math
 import numpy as np
 from hypothesis import strategies as st
 
-from pbt.samples import call, raised, build, fingerprint, fp_diff, NAME_POOL
+from pbt.samples import derived_from_used_parent, call, raised, build, fingerprint, fp_diff, NAME_POOL
 
 ID = 'C08'
 LEVEL = 'exploration'
@@ -54,7 +54,8 @@ def _container(draw, thresholds, min_n=0, max_n=60, positive=False):
             else st.one_of(st.floats(lo, R * 1.2), st.floats(lo, R * 1.2), st.floats(lo, R * 1.2), weird)
     cells = [[draw(cell) for _ in range(D)] for _ in range(N)]
     names = list(draw(st.permutations([n for n in NAME_POOL if n != 'Time']))[:D])
-    return dict(kind=kind, D=D, R=R, cells=cells, names=names)
+    return dict(kind=kind, D=D, R=R, cells=cells, names=names,
+                derived=draw(st.sampled_from([None, None, None, ['slice', 1], ['list', 2]])))
 
 
 def _materialise(c):
@@ -67,7 +68,7 @@ def _materialise(c):
     spec = dict(version='FCS3.0', datatype='I' if kind == 'sample_i' else 'D', byteord='1,2,3,4',
                 widths=[16 if kind == 'sample_i' else 64] * D, ranges=[R] * D, names=c['names'],
                 events=cells, pne=['0,0'] * D)
-    d = build(spec)
+    d = build(spec) if not c.get('derived') else derived_from_used_parent(spec, c['derived'][1], c['derived'][0])
     return d, [[0.0, R - 1.0]] * D
 
 
